@@ -36,13 +36,15 @@ MANIFEST = {
             "the frozen tables (audited override), hence inside valid_obj and inside the theorems -- on a tree that does not "
             "check it the refinement names constraint|<class>|0 for the 37 classes with both properties and the theorem's "
             "instance is about the specification relaxed at exactly those places; (b) strict RFC 4648 base64 for binary "
-            "properties and (c) no null / empty list inside dictionary values are in valid_obj_x = valid_obj + leaf_extra, "
-            "which is what the ORACLE evaluates; the soundness theorems are about valid_obj and do NOT cover (b), (c). Proved "
+            "properties, (c) no null / empty list inside dictionary values and (d) the `definition` of a marking-definition is "
+            "of the marking type `definition_type` names are in valid_obj_x = valid_obj + leaf_extra + marking_match, "
+            "which is what the ORACLE evaluates; the soundness theorems are about valid_obj and do NOT cover (b)-(d). Proved "
             "about them: audited_validator_strengthens (valid_obj_x implies valid_obj) and three more refutations "
             "(strict_sound_refuted_binary_not_base64: lenient-decoder variant; _dictionary_null_value: pinned and repaired "
             "variant alike; _modified_before_created: the regenerated tables minus the time-order rule). CORRESPONDENCE / "
             "ORACLE ONLY (not proved): the uncovered classes, inputs outside req_scope, interoperability mode, allow_custom "
-            "mode, Python-only argument values, state kept between calls, rules (b) and (c).",
+            "mode, Python-only argument values (incl. already constructed objects given as property values), state kept "
+            "between calls, rules (b)-(d).",
     "design_ref": "DESIGN.md 6/C02, Appendix A.7; design_notes/C02-C03.md",
     "note": "Trusted: Coq kernel + vm_compute; tr_tables translator (live classes of the tree under test; fail-closed); the "
             "frozen specification tables /verif/spec (audited: 2.1 confidence 0..100, 2.0 marking-definition created "
@@ -610,8 +612,9 @@ def check(run):
     run.coverage["rule"] = (
         "objects of every class of both versions generated from the FROZEN spec tables (optional-property subsets, boundary "
         "numbers, all vocabularies, reference targets, sub-second timestamps, granular markings), each with single-point "
-        "corruptions (required dropped, wrong kind, out of range / vocabulary, disallowed reference type, malformed id / "
-        "timestamp / hex / hash / dictionary, unknown property, violated co-constraint), through parse() and the class "
+        "corruptions (required dropped, wrong kind, boolean for integer, out of range / vocabulary, disallowed reference type, "
+        "malformed id / timestamp / hex / hash / dictionary / base64 text, null or empty list inside a dictionary value, unknown "
+        "property, violated co-constraint incl. modified before created), through parse() and the class "
         "constructors, strict (and a share in allow_custom / interoperability mode), plus the witnesses of the defect variants "
         "and the boundary inputs of every failing refinement slot; non-trivial = not rejected as unknown property / unknown type")
     gen_ok = sc.translate_and_build(run, "Props/C02.v")
